@@ -519,13 +519,20 @@ func decField(f int, b []byte) uint64 {
 }
 
 func (c tupleCodec) Transform(t Tuple) ([]byte, []byte) {
+	// the usual idiom: append(enc(first), enc(second)...) - the first field's encoding is the buffer the others
+	// are appended to (an encoder that hands out shared storage shows here)
 	var out []byte
 	for i, f := range c.s.Fields {
+		var e []byte
 		if f == fStr {
-			out = append(out, t.S...)
-			out = append(out, 0)
+			e = append([]byte(t.S), 0)
 		} else {
-			out = append(out, encField(f, t.N[i])...)
+			e = encField(f, t.N[i])
+		}
+		if i == 0 {
+			out = e
+		} else {
+			out = append(out, e...)
 		}
 	}
 	return out, out
